@@ -1,4 +1,5 @@
 // Kani harnesses for cascette-client-storage.
+#![cfg_attr(kani, feature(allocator_api))]
 #![allow(dead_code, unused_imports, static_mut_refs)]
 
 #[cfg(kani)]
@@ -12,6 +13,11 @@ pub mod stubs;
 pub mod tracing_stubs;
 
 #[cfg(kani)]
+#[macro_use]
+pub mod zz_witness;
+#[cfg(kani)]
 mod c18_spans;
 #[cfg(kani)]
 mod c18_plan;
+#[cfg(kani)]
+mod c18_files;
